@@ -206,6 +206,10 @@ def abs_obj(v, ids, stack=(), private_depth=None):
                 k = str(k)
                 if k == "id":
                     items.append(["id", ["i", ids.get(id(v), 0)]])
+                elif k == "label" and not info["is_mo"] and "label" not in info["ctor"]:
+                    # Model.__setattr__ stamps `value.label = namer(key)` (a process-wide counter) on plain
+                    # instances it is given; it is not a constructor argument, hence never identifying
+                    continue
                 elif k.startswith("_"):
                     items.append([clean(k), abs_obj(x, ids, stack, 2 if private_depth is None else private_depth)])
                 else:
